@@ -111,12 +111,14 @@ PROPS = {
         shards=14,
     ),
     "C20": dict(
-        mc=["MC_Store"],
-        gen=[dict(module="Gen_Store", cfg="Gen_Store_expiry.cfg", out="store_cases.ndjson",
-                  simulate=dict(quick="num=260", thorough="num=4000", depth=30))],
-        topic="store",
-        rules=["NoPanic", "QueryUpper", "AuthNotCached", "AuthForever", "CacheExpired", "CacheVisible"],
-        shards=14,
+        mc=["MC_Store", "MC_Discovery", "MC_DiscoveryAsync", "MC_DiscoveryLossy"],
+        never_ok=["RemoveAsync", "Advertise", "Drop", "Remove"],
+        runs=[dict(topic="store", shards=14,
+                   gen=[dict(module="Gen_Store", cfg="Gen_Store_expiry.cfg", out="store_cases.ndjson",
+                             simulate=dict(quick="num=260", thorough="num=4000", depth=30))]),
+              # the goodbye of a real peer (cache-flush records, one second) seen by real peers (sampled)
+              dict(topic="e2e", shards=1, gen=[])],
+        rules=["NoPanic", "QueryUpper", "AuthNotCached", "AuthForever", "CacheExpired", "CacheVisible", "E2EGoodbye"],
     ),
     "C14": dict(
         mc=["MC_Mdns"],
@@ -127,13 +129,15 @@ PROPS = {
         shards=14,
     ),
     "C15": dict(
-        mc=["MC_Mdns"],
-        gen=[dict(module="Gen_Discover", cfg="Gen_Discover.cfg", out="discover_cases.ndjson",
-                  simulate=dict(quick="num=1500", thorough="num=30000", depth=30)),
-             dict(module="Gen_Discover", cfg="Gen_Escape.cfg", out="escape_cases.ndjson")],
-        topic="discover",
-        rules=["NoPanic", "DiscoverExact", "IngestFilter", "EscapeInverse"],
-        shards=12,
+        mc=["MC_Mdns", "MC_Discovery", "MC_DiscoveryAsync", "MC_DiscoveryLossy"],
+        never_ok=["RemoveAsync", "Advertise", "Drop", "Remove"],   # each flavour / the lossy network has its own configuration
+        runs=[dict(topic="discover", shards=12,
+                   gen=[dict(module="Gen_Discover", cfg="Gen_Discover.cfg", out="discover_cases.ndjson",
+                             simulate=dict(quick="num=1500", thorough="num=30000", depth=30)),
+                        dict(module="Gen_Discover", cfg="Gen_Escape.cfg", out="escape_cases.ndjson")]),
+              # the real ServiceDiscovery peers on the loopback multicast group (sampled)
+              dict(topic="e2e", shards=1, gen=[])],
+        rules=["NoPanic", "DiscoverExact", "IngestFilter", "EscapeInverse", "E2EDiscovered"],
     ),
     "C16": dict(
         gen=[dict(module="Gen_Packet", cfg="Gen_Packet.cfg", out="packet_cases.ndjson",
